@@ -329,6 +329,8 @@ pub struct IoCase {
     pub wfault: Option<Fault>,
     pub rfault: Option<Fault>,
     pub monitored: bool,
+    /// capacity of the monitored IoBuffer (None: the documented 2 * max(max_msg_len, MIN_SIZE))
+    pub buf_cap: Option<usize>,
     /// bytes fed to the receiver instead of what the sender produced (C10)
     pub stream: Option<Vec<u8>>,
     /// how many times a failed recv is retried (C09)
@@ -458,7 +460,7 @@ pub fn run_blocking<M: Shape + ?Sized>(c: &IoCase) -> IoTrace {
             }};
         }
         if c.monitored {
-            let cap = 2 * c.max_msg_len.max(M::MIN_SIZE);
+            let cap = c.buf_cap.unwrap_or(2 * c.max_msg_len.max(M::MIN_SIZE));
             let buf = Mon { inner: IoBuffer::new(ScriptedReader(rs), cap, M::ALIGN), log: ml, align: M::ALIGN };
             let mut receiver = Receiver::<M, _>::new(buf);
             recv_loop!(receiver);
@@ -718,6 +720,7 @@ pub fn run_async<M: Shape + ?Sized>(c: &IoCase) -> IoTrace {
         let pend_r = c.pend_r.clone();
         let rfault = c.rfault.clone();
         let monitored = c.monitored;
+        let buf_cap = c.buf_cap;
         let mut retries = c.recv_retries;
         let max_recvs = c.max_recvs;
         let receiver_task = async move {
@@ -757,7 +760,7 @@ pub fn run_async<M: Shape + ?Sized>(c: &IoCase) -> IoTrace {
                 }};
             }
             if monitored {
-                let cap = 2 * max.max(M::MIN_SIZE);
+                let cap = buf_cap.unwrap_or(2 * max.max(M::MIN_SIZE));
                 let buf = Mon { inner: IoBuffer::new(pipe, cap, M::ALIGN), log: ml, align: M::ALIGN };
                 let mut receiver = AsyncReceiver::<M, _>::new(buf);
                 recv_loop!(receiver);
